@@ -42,6 +42,34 @@ TRACE_INV = ["M_Offered", "M_Mask", "M_Done", "M_Reward", "M_Content", "M_Dtype"
 # ---------------------------------------------------------------------------------------------
 # small helpers
 # ---------------------------------------------------------------------------------------------
+class time_limit:
+    """a restored object that is not the original may make the environment loop for ever: a call on the RESTORED side
+    that does not return within `secs` is a difference like any other (main thread only)"""
+
+    def __init__(self, secs):
+        self.secs = secs
+
+    def _raise(self, signum, frame):
+        raise TimeoutError("no result within %ss" % self.secs)
+
+    def __enter__(self):
+        import signal
+
+        try:
+            self.old = signal.signal(signal.SIGALRM, self._raise)
+            signal.setitimer(signal.ITIMER_REAL, self.secs)
+        except ValueError:
+            self.old = None
+
+    def __exit__(self, *a):
+        import signal
+
+        if self.old is not None:
+            signal.setitimer(signal.ITIMER_REAL, 0)
+            signal.signal(signal.SIGALRM, self.old)
+        return False
+
+
 def bits(x):
     """float32 bit pattern as a (32 bit) int: equal bits <=> the very same float"""
     return struct.unpack("<i", struct.pack("<f", float(x)))[0]
@@ -214,7 +242,8 @@ def greedy_pair(env_o, td_o, env_r, td_r):
         g_o = greedy(env_o, td_o, None)
     B = td_o.batch_size[0]
     try:
-        g_r = greedy(env_r, td_r, pol)
+        with time_limit(60):
+            g_r = greedy(env_r, td_r, pol)
     except Exception as e:  # noqa: BLE001
         g_r = ([[-999]] * B, [-(zlib.crc32(type(e).__name__.encode()) & 0x3FFFFFFF)] * B)
     return g_o, g_r
@@ -252,7 +281,8 @@ def side_by_side(kind, what, env_o, td_o, env_r, td_r, content, dtype, strict, r
         er, note = None, ""
         if eo is not None:
             try:
-                er = play(env_r, td_r, actions=eo["acts"])
+                with time_limit(60):
+                    er = play(env_r, td_r, actions=eo["acts"])
             except Exception as e:  # noqa: BLE001  the restored object cannot even be run: every step differs
                 code = -(zlib.crc32(type(e).__name__.encode()) & 0x3FFFFFFF)
                 er = {"mask": [[[code]] * len(m) for m in eo["mask"]], "done": eo["done"], "reward": [code] * len(eo["mask"])}
@@ -426,17 +456,21 @@ def sched_content(orig, rest):
 
 
 def realisations(ad, env, real, td, group, tag):
-    """the real round trips standing for a codec of the model: (name, codec kind, env_r, td_r, rows of `group` covered)"""
+    """the real round trips standing for a codec of the model: (name, codec kind, thunk -> (env_r, td_r), rows covered)"""
     from rl4co.data.utils import load_npz_to_tensordict, save_tensordict_to_npz
 
     allrows = list(range(len(group)))
-    yield "deepcopy", "same", copy.deepcopy(real), copy.deepcopy(td), allrows
-    yield "pickle", "same", pickle.loads(pickle.dumps(real)), pickle.loads(pickle.dumps(td)), allrows
+    yield "deepcopy", "same", (lambda: (copy.deepcopy(real), copy.deepcopy(td))), allrows
+    yield "pickle", "same", (lambda: (pickle.loads(pickle.dumps(real)), pickle.loads(pickle.dumps(td)))), allrows
     d = fresh_dir("replay", tag)
-    for compress in (False, True):
+
+    def npz(compress):
         f = os.path.join(d, "inst_%d.npz" % compress)
         save_tensordict_to_npz(td, f, compress=compress)
-        yield "npz(compress=%s)" % compress, "same", real, load_npz_to_tensordict(f), allrows
+        return real, load_npz_to_tensordict(f)
+
+    for compress in (False, True):
+        yield "npz(compress=%s)" % compress, "same", (lambda c=compress: npz(c)), allrows
     if ad.name == "cvrp":
         # a dataset file in the generate_data format: raw integer demands and the capacity on disk, CVRPEnv.load_data
         # normalises (once); the environment then works with vehicle capacity 1.  Capacities that are powers of two
@@ -444,22 +478,46 @@ def realisations(ad, env, real, td, group, tag):
         from rl4co.envs import CVRPEnv
 
         rows = [k for k, i in enumerate(group) if i["cap"] & (i["cap"] - 1) == 0]
-        if rows:
+
+        def dataset():
             sub = td[torch.tensor(rows)]
             f = os.path.join(d, "vrp_raw.npz")
             np.savez(f, depot=sub["depot"].numpy(), locs=sub["locs"].numpy(),
                      demand=np.array([group[k]["dem"] for k in rows], dtype=np.float32),
                      capacity=np.array([group[k]["cap"] for k in rows], dtype=np.float32))
-            env_r = CVRPEnv(generator_params={"num_loc": group[0]["N"]}, check_solution=False)
-            yield "dataset file + CVRPEnv.load_data", "same", env_r, CVRPEnv.load_data(f), rows
+            return CVRPEnv(generator_params={"num_loc": group[0]["N"]}, check_solution=False), CVRPEnv.load_data(f)
+
+        if rows:
+            yield "dataset file + CVRPEnv.load_data", "same", dataset, rows
     if ad.name in ("fjsp", "jssp"):
         for route in ("load_data", "file_generator"):
-            env_r, td_r = text_roundtrip(real, td, fresh_dir("replay", tag, "txt_" + route), route)
-            yield "text files + " + route, "text", env_r, td_r, allrows
+            yield "text files + " + route, "text", \
+                (lambda r=route: text_roundtrip(real, td, fresh_dir("replay", tag, "txt_" + r), r)), allrows
         # directories holding a single instance (dataset size 1: no padding at all)
         for k in allrows[:2]:
-            env_r, td_r = text_roundtrip(real, td[k:k + 1], fresh_dir("replay", tag, "txt_single_%d" % k), "load_data")
-            yield "text file (single) + load_data", "text", env_r, td_r, [k]
+            yield "text file (single) + load_data", "text", \
+                (lambda k=k: text_roundtrip(real, td[k:k + 1], fresh_dir("replay", tag, "txt_single_%d" % k), "load_data")), [k]
+
+
+def attempt(fn, secs=120):
+    """run a round trip of the library; (value, None), or (None, what the LIBRARY raised) -- failures of the harness itself
+    are not caught"""
+    try:
+        with time_limit(secs):
+            return fn(), None
+    except Exception as e:  # noqa: BLE001
+        from ..check import crash_site
+
+        where = crash_site(e)
+        if where is None:
+            raise
+        return None, "raised %s at %s: %s" % (type(e).__name__, where, str(e).strip().split("\n")[0][:120])
+
+
+def failed(kind, what, n, err):
+    """records of a round trip that did not come back at all"""
+    return records_for(kind, what + " -- round trip " + err, None, None, False, True, False, True,
+                       ([[]] * n, [0] * n), ([[-999]] * n, [0] * n))
 
 
 def family_of(ad, tier, seed, nmax):
@@ -488,7 +546,12 @@ def replay_env(ad, fam, model, viol, samples, stats):
         wrap = (lambda e: type(env)(e)) if real is not env else (lambda e: e)   # noqa: E731
         td = ad.to_td(group)
         tag = "%s_%s" % (ad.name, "_".join(str(x) for x in gk))
-        for (route, kind, env_r, td_r, rows) in realisations(ad, env, real, td, group, tag):
+        for (route, kind, thunk, rows) in realisations(ad, env, real, td, group, tag):
+            res, err = attempt(thunk)
+            if err:
+                bad("replay-roundtrip", group[rows[0]], [], "the round trip " + err, route)
+                continue
+            env_r, td_r = res
             if td_r is None:
                 bad("replay-content", group[rows[0]], [], "the files written do not come back one instance each", route)
                 continue
@@ -608,8 +671,10 @@ def rec_npz(tier, seed, recs, notes):
                         torch.manual_seed(seed * 97 + size + ci)
                         td = env.generator([size])
                     f = os.path.join(d, "%s_%d_%d_%d.npz" % (name, ci, size, compress))
-                    save_tensordict_to_npz(td, f, compress=compress)
-                    back = load_npz_to_tensordict(f)
+                    back, err = attempt(lambda: (save_tensordict_to_npz(td, f, compress=compress), load_npz_to_tensordict(f))[1])
+                    if err:
+                        recs += failed("npz", "%s %s size=%d compress=%s" % (name, params, size, compress), size, err)
+                        continue
                     c, dt, why = td_compare(td, back)
                     if set(back.keys()) != set(td.keys()) or back.batch_size != td.batch_size:
                         c, why = False, why + " keys/batch size %s %s" % (sorted(back.keys()), back.batch_size)
@@ -637,8 +702,10 @@ def rec_npz(tier, seed, recs, notes):
     env = make_env("mtvrp", seed=seed + 3)
     td = env.generator([3])
     f = os.path.join(d, "mtvrp_loader.npz")
-    save_tensordict_to_npz(td, f)
-    back = env.load_data(f)
+    back, err = attempt(lambda: (save_tensordict_to_npz(td, f), env.load_data(f))[1])
+    if err:
+        recs += failed("npz", "mtvrp save_tensordict_to_npz + MTVRPEnv.load_data", 3, err)
+        return n + 1
     c, dt, why = td_compare(td, back)
     recs += side_by_side("npz", "mtvrp save_tensordict_to_npz + MTVRPEnv.load_data %s" % why, env, td, env, back, c, dt,
                          True, True, seed)
@@ -677,6 +744,7 @@ def rec_dataset(tier, seed, recs):
         for dsize in ((1, 3) if quick else (1, 2, 6)):
             for how in (("data_dir",) if quick else ("data_dir", "filename")):
                 s = 4321 + seed + dsize
+                label = "generate_dataset(%s,%s,size=%d,n=%d,%s)" % (problem, dist, size, dsize, how)
                 if how == "data_dir":
                     generate_dataset(data_dir=d, name="c19n%d" % dsize, problem=problem, data_distribution=dist or "all",
                                      dataset_size=dsize, graph_sizes=[size], overwrite=True, seed=s)
@@ -690,7 +758,10 @@ def rec_dataset(tier, seed, recs):
                 arrays = generate_env_data(problem, dsize, size, dist)
                 td_o = in_memory_equivalent(problem, arrays)
                 env = make_env(envname, {"num_loc": size}, seed=seed + 5)
-                td_r = env.load_data(fn)
+                td_r, err = attempt(lambda: env.load_data(fn))
+                if err:
+                    recs += failed("dataset", label + " + %s.load_data" % type(env).__name__, dsize, err)
+                    continue
                 c, dt, why = td_compare(td_o, td_r)
                 if td_r.batch_size != td_o.batch_size:
                     c, why = False, why + " batch size %s" % (td_r.batch_size,)
@@ -701,8 +772,7 @@ def rec_dataset(tier, seed, recs):
                     if not bool(((raw - raw.round()).abs() < 1e-4).all() and (raw.round() >= 1).all() and (raw.round() <= 9).all()
                                 and (td_r["capacity"] == VRP_CAPACITY[size]).all()):
                         c, why = False, why + " loaded demand x capacity %s is not the documented integer 1..9" % raw[0].tolist()[:4]
-                what = "generate_dataset(%s,%s,size=%d,n=%d,%s) + %s.load_data %s" % (
-                    problem, dist, size, dsize, how, type(env).__name__, why)
+                what = "%s + %s.load_data %s" % (label, type(env).__name__, why)
                 recs += side_by_side("dataset", what, env, td_o, env, td_r, c, dt, True, True, seed)
                 n += 1
     return n
@@ -729,7 +799,12 @@ def rec_text(tier, seed, recs, viol):
                             torch.manual_seed(seed * 31 + size + 7 * ci)
                             td = env.generator([size])
                         where = fresh_dir("text", "%s_%d_%d_%s" % (name, ci, size, route))
-                        env_r, td_r = text_roundtrip(env, td, where, route)
+                        what = "%s %s n=%d mask_no_ops=%s text files + %s" % (name, params, size, mask_no_ops, route)
+                        res, err = attempt(lambda: text_roundtrip(env, td, where, route))
+                        if err:
+                            recs += failed("text", what, size, err)
+                            continue
+                        env_r, td_r = res
                         if route == "load_data" and ci == 0 and mask_no_ops:
                             # the loader as every other environment's is called: load_data(path), batch_size left at its default
                             try:
@@ -745,7 +820,6 @@ def rec_text(tier, seed, recs, viol):
                                              "actions": [], "detail": "%s.load_data(<directory of %d instance files>) with the "
                                              "default batch_size=[] raised %s: %s" % (type(env).__name__, size,
                                                                                        type(e).__name__, str(e)[:120])})
-                        what = "%s %s n=%d mask_no_ops=%s text files + %s" % (name, params, size, mask_no_ops, route)
                         if td_r is None:
                             recs += records_for("text", what + " (files do not come back one instance each)", None, None,
                                                 False, True, False, True, ([[]] * size, [0] * size), ([[]] * size, [0] * size))
@@ -801,14 +875,19 @@ def rec_envcopy(tier, seed, recs):
                     env.reset(batch_size=[2])       # the generator state has moved on since construction
                 B = 2 if quick else 3
                 snap = lambda e: (plain_state(e), plain_state(e.generator))   # noqa: E731
+                label = "%s(%s) %s after %d resets" % (type(env).__name__, "" if callable(params) else (params or ""), how, advance)
+
+                def restored(make):
+                    e = make()
+                    return e, snap(e), e.generator([B]), e.reset(batch_size=[2])
+
                 if how == "pickle":
-                    blob, ps_o = pickle.dumps(env), snap(env)
+                    ps_o = snap(env)
+                    blob, err = attempt(lambda: pickle.dumps(env))
                     nxt = env.generator([B])        # what the original produces next
                     nxt2 = env.reset(batch_size=[2])
-                    env_r = pickle.loads(blob)      # restores the generator state of the moment of pickling
-                    ps_r = snap(env_r)
-                    got = env_r.generator([B])
-                    got2 = env_r.reset(batch_size=[2])
+                    if not err:                     # restores the generator state of the moment of pickling
+                        res, err = attempt(lambda: restored(lambda: pickle.loads(blob)))
                 else:
                     st = torch.get_rng_state()
                     cur = getattr(env.generator, "start_idx", None)
@@ -818,15 +897,16 @@ def rec_envcopy(tier, seed, recs):
                     if cur is not None:
                         env.generator.start_idx = cur
                     ps_o = snap(env)
-                    env_r = copy.deepcopy(env)
-                    ps_r = snap(env_r)
-                    got = env_r.generator([B])
-                    got2 = env_r.reset(batch_size=[2])
+                    res, err = attempt(lambda: restored(lambda: copy.deepcopy(env)))
+                if err:
+                    recs += failed("envcopy", label, B, err)
+                    n += 1
+                    continue
+                env_r, ps_r, got, got2 = res
                 r1, _, w1 = td_compare(nxt, got)
                 r2, _, w2 = td_compare(nxt2, got2)
                 c = ps_o == ps_r
-                what = "%s(%s) %s after %d resets %s %s" % (type(env).__name__, "" if callable(params) else (params or ""),
-                                                             how, advance, w1, w2)
+                what = "%s %s %s" % (label, w1, w2)
                 if "action_mask" in nxt2.keys():
                     recs += side_by_side("envcopy", what, env, nxt, env_r, nxt, c, True, True, r1 and r2, seed)
                 else:
